@@ -30,6 +30,10 @@ SCHEMA = Path("/root/.vp/EVIDENCE.schema.json")
 SCHEMA_FALLBACK = VERIF / "pvmon" / "EVIDENCE.schema.json"
 
 
+THOROUGH_SCALE = {"C02": 6, "C03": 6, "C04": 5, "C05": 8, "C06": 8, "C07": 5, "C08": 6, "C09": 6, "C10": 5, "C11": 5, "C12": 6,
+                  "C13": 3, "C14": 5, "C15": 4, "C16": 5, "C17": 5, "C20": 10}
+
+
 def repo_path() -> str:
     return os.environ.get("PANDORA_VERIF_REPO", "/repo")
 
@@ -295,6 +299,13 @@ def main(argv=None) -> int:
             results = [run_shard(prop, spec, workdir)]
         else:
             specs = mod.plan(args.tier, args.seed)
+            if args.tier == "thorough":
+                # thorough tier: the per-shard case counts of the plans are multiplied so that each property gets
+                # 5-10 minutes of exploration on 16 cores (measured on this sandbox)
+                scale = THOROUGH_SCALE.get(prop, 1)
+                for s in specs:
+                    if "n" in s and s.get("work") not in ("sub",):
+                        s["n"] = int(s["n"] * scale)
             if args.only:
                 specs = [s for s in specs if args.only in s["name"]]
             for s in specs:
